@@ -78,7 +78,7 @@ class RandLog:
             np.random.choice, np.random.shuffle = o_npchoice, o_npshuffle
 
 
-def construct(vk, rule, profile, cfg, rng_seed, timeout=10):
+def construct(vk, rule, profile, cfg, rng_seed, timeout=4):
     """Build the election; returns dict(status='ok'|'exn'|'timeout', e, exn, log, transfers)."""
     from votekit import elections as E
     from votekit.elections import transfers as T
@@ -125,6 +125,8 @@ def construct(vk, rule, profile, cfg, rng_seed, timeout=10):
         kw.update(m=cfg["m"])
     elif rule in ("RandomDictator", "BoostedRandomDictator"):
         kw.update(m=cfg["m"])
+    elif rule == "PluralityVeto":
+        kw.update(m=cfg["m"], tiebreak=cfg.get("tiebreak"))
     elif rule == "GeneralRating":
         kw.update(m=cfg["m"], L=Fraction(cfg["L"]), tiebreak=cfg.get("tiebreak"))
         if cfg.get("k") is not None:
@@ -202,16 +204,16 @@ def model_request(rule, spec, cfg, res, names):
             for (w, fpv, smp) in res["transfers"]:
                 if w not in first:
                     first[w] = smp
-            per_round = [[] for _ in states]
-            for ri, s in enumerate(states):
-                for g in s.elected:
-                    for c in g:
-                        if c in first and first[c] is not None:
-                            cnt = {}
-                            for b in first[c]:
-                                key = tuple(names.idx[str(x)] for pos in b.ranking for x in pos)
-                                cnt[key] = cnt.get(key, 0) + 1
-                            per_round[ri].append([names.idx[str(c)], sorted([list(k), v] for k, v in cnt.items())])
+            allw = []
+            for c, smp in first.items():
+                if smp is not None:
+                    cnt = {}
+                    for b in smp:
+                        key = tuple(names.idx[str(x)] for pos in b.ranking for x in pos)
+                        cnt[key] = cnt.get(key, 0) + 1
+                    allw.append([names.idx[str(c)], sorted([list(k), v] for k, v in cnt.items())])
+            # a winner is elected once, so the same winner-keyed table serves every round
+            per_round = [allw] * (len(spec["c"]) + 4)
             req["sample"] = per_round
         return req
     if rule in ("Plurality", "SNTV"):
@@ -263,7 +265,10 @@ def model_request(rule, spec, cfg, res, names):
 def expect_states(res, names, with_threshold=False):
     if res["status"] == "ok":
         st = names.states(res["e"])
-        return {"ok": st}
+        out = {"ok": {"states": st}}
+        if hasattr(res["e"], "threshold"):
+            out["ok"]["threshold"] = res["e"].threshold
+        return out
     if res["status"] == "exn":
         return {"exn": res["exn"]}
     return {"timeout": True}
@@ -302,3 +307,23 @@ def monitor_outcome(res, profile, m_expected, rule):
                 fails.append({"name": "status-monotone", "detail": f"round {r}: {c} was {s} now {status.get(c)}"})
         status_prev = status
     return fails
+
+
+def compare_states(model, expect):
+    """model answer vs. implementation: states (and threshold where both report one)"""
+    if "ok" in model and "ok" in expect:
+        mo = model["ok"]
+        m_states = mo["states"] if isinstance(mo, dict) else mo
+        if m_states != expect["ok"]["states"]:
+            for i, (a, b) in enumerate(zip(m_states, expect["ok"]["states"])):
+                if a != b:
+                    keys = [k for k in a if a[k] != b.get(k)]
+                    return f"round {i} differs in {keys}"
+            return f"number of rounds: model {len(m_states)} vs impl {len(expect['ok']['states'])}"
+        if isinstance(mo, dict) and "threshold" in mo and "threshold" in expect["ok"]:
+            if mo["threshold"] != expect["ok"]["threshold"]:
+                return f"threshold model {mo['threshold']} vs impl {expect['ok']['threshold']}"
+        return None
+    if "exn" in model and "exn" in expect and model["exn"] == expect["exn"]:
+        return None
+    return f"model {list(model)[0]}:{model.get('exn', '')} vs impl {list(expect)[0]}:{expect.get('exn', '')}"
